@@ -2,7 +2,7 @@
 Driver commands of the schema-2.x track group.
   mode `tracksv2` (stateful; same lines as harness/djv_db.cpp + djv_tracksv2.cpp):
      create <schema> mem|disk | mktrack <var> <snapshot> | update <var> <snapshot>
-     snap <var> | get <var> <field> [i] | set <var> <field> <value…> | t2.row <var>
+     snap <var> | get <var> <field> [i] | set <var> <field> <value…> | t2.row <var> | t2.skew <var>
   stateless Spec commands (the oracle, evaluated on the implementation's answers):
      t2.spec.norm <schema> <snapshot>          → ok <snapshot> | reject
      t2.spec.set <snapshot> <field> <value…>   → ok <snapshot> | reject
@@ -271,6 +271,18 @@ def step (st : St) (cmd : String) (args : List String) : St × String :=
       let (db', r) := st.db.set hwOps id σ
       ({ st with db := db' }, resUnit r)
     | _, _ => (st, "bad-op set")
+  | "t2.skew", [v] =>
+    -- default grid / default main cue made different from the adjusted ones (planted on the real database too)
+    match st.var v with
+    | some id =>
+      match st.db.get id with
+      | some r =>
+        let r' : Row := { r with
+          beat := ({ r.beat.1 with dflt := [⟨0x40c81c8000000000, 7, 0, 0⟩] }, r.beat.2)
+          cues := ({ r.cues.1 with defMain := 0x40ea862000000000 }, r.cues.2) }
+        ({ st with db := st.db.put id r' }, "ok")
+      | none => (st, "ok none")
+    | none => (st, "bad-op var")
   | "t2.row", [v] =>
     match st.schema, st.var v with
     | some s, some id =>
